@@ -7,7 +7,7 @@ from rules import common
 
 CLAIMED = True
 TECHNIQUE = "static analysis over type-checked MIR: derive-shape detection of deny_unknown_fields (no __ignore variant + unknown_field calls), default-value provenance, registry cross-check (Deserialize impls vs inserted kinds vs default kinds), kind-tagged section shape, loop-exit analysis of the lossy pipelines, guarded-table extraction of the extension->format->parser tables, field-to-field provenance of RawConfig::{root,loggers}, panic-site inventory of the loading cone"
-LEVEL_TEXT = """Static decision of schema/registry/pipeline clauses (agreement of the three formats with one another and with the programmatic configuration rests on serde and the format crates and is NOT claimed): (K1) the derived Deserialize of the 14 listed config structs denies unknown fields (no __ignore field variant, unknown_field reached from both field visitors); (K2) defaults: additive->true, root level->Debug, policy kind->"compound", encoder kind->"pattern", append->true in both file appender builders and only overridden when the config field is Some, console target->Stdout / tty_only->false, fixed-window base->0, on-start-up min_size->1; (K3) every impl of config::Deserialize is inserted exactly once in Deserializers::default() under its documented kind for the matching trait, the default kinds are registered, and an unregistered kind yields Err; (K4) the kind-tagged sections remove "kind" (and "filters") and pass the remainder on, a missing kind is an error for appender/filter/trigger/roller and the default for policy/encoder; (K5) appenders_lossy's loops only exit by exhaustion, push every error, and a failed filter does not drop its appender; file loading uses build_lossy and handles both error lists; create_raw_config fails on any error and uses strict build; (K6) yaml|yml->Yaml, json->Json, toml->Toml and each variant parses with its crate's from_str; (K7) RawConfig::{root,loggers} map level->level, appenders->appenders, additive->additive, map key->name, each setter applied unconditionally before build (never skipped for some documents); (K8) no un-discharged panic site in the loading cone (inherits the time trigger's known finding D5, since TimeTrigger::new runs at load time)."""
+LEVEL_TEXT = """Static decision of schema/registry/pipeline clauses (agreement of the three formats with one another and with the programmatic configuration rests on serde and the format crates and is NOT claimed): (K1) the derived Deserialize of the 14 listed config structs denies unknown fields (no __ignore field variant, unknown_field reached from both field visitors); (K2) defaults: additive->true, root level->Debug, policy kind->"compound", encoder kind->"pattern", append->true in both file appender builders and only overridden when the config field is Some, console target->Stdout / tty_only->false, fixed-window base->0, on-start-up min_size->1; (K3) every impl of config::Deserialize is inserted exactly once in Deserializers::default() under its documented kind for the matching trait, the default kinds are registered, and an unregistered kind yields Err; (K4) the kind-tagged sections remove "kind" (and "filters") and pass the remainder on, a missing kind is an error for appender/filter/trigger/roller and the default for policy/encoder; (K5) appenders_lossy's loops only exit by exhaustion, push every error, and a failed filter does not drop its appender; file loading uses build_lossy and handles both error lists; create_raw_config fails on any error and uses strict build; (K6) yaml|yml->Yaml, json->Json, toml->Toml and each variant parses with its crate's from_str; (K7) RawConfig::{root,loggers} map level->level, appenders->appenders, additive->additive, map key->name, each setter applied unconditionally before build (never skipped for some documents); (K8) no un-discharged panic site in the loading cone (inherits the time trigger's known finding D5, since TimeTrigger::new runs at load time). (K11) the refresh_rate visitor implements visit_str only; any other visit_* is a plain hand-over of its argument to it."""
 LEVEL_NOTE = "Trusted: rustc MIR/callee resolution; serde derive semantics for the generated shapes; serde_yaml/serde_json/toml; typemap. cfg-disabled formats report a FormatError and are checked as such."
 EXPLANATION = """Decided: K1 deny-unknown shapes (14 structs), K2 defaults, K3 registry, K4 kind-tagged sections, K5 lossy/strict pipelines, K6 format tables, K7 field mapping, K8 loading does not panic (D5 sites reported as known findings under C16). Undecided: cross-format equivalence and equivalence with the programmatic configuration."""
 DECIDED = ["K1", "K2", "K3", "K4", "K5", "K6", "K7", "K8", "K5b a fresh filter list per appender", "K9 keys a document leaves out stand for the documented defaults (root level debug, additive true, empty lists)"]
@@ -147,6 +147,46 @@ def rule_whole_document_parsers(r, p):
     for c in g.calls():
         if (c.callee or "").endswith("::from_str"):
             r.require(deep_strip(c.arg(0)) == ("param", 2), "parses-the-source:%s" % common.role(c), fn=g, detail="parser input is the source text")
+
+
+def rule_raw_to_runtime(ctx, p, cfg, rid="K7"):
+    """RawConfig::{root,loggers,refresh_rate}: what the document says about a logger (name, level, appenders, additive) is what
+    the runtime configuration holds - for every logger, whatever its other keys are."""
+    with ctx.rule(rid, "meaning preserved", cfg) as r:
+        f = p.fn("config::raw::RawConfig::root")
+        e = f.local_expr(0)
+        ok = e[0] == "call" and e[1] == "config::runtime::RootBuilder::build"
+        lv = deep_strip(e[2][1]) if ok else None
+        ap = [x for x in walk(e) if x[0] == "call" and x[1] == "config::runtime::RootBuilder::appenders"]
+        r.require(ok and lv[0] == "field" and lv[2] == "level" and any(x[0] == "field" and x[2] == "root" for x in walk(lv)), "root-level", fn=f, detail="build(self.root.level): %s" % (show(lv) if lv else None))
+        r.require(bool(ap) and deep_strip(ap[0][2][1]) == ("field", ("field", ("param", 1), "root"), "appenders"), "root-appenders", fn=f, detail="appenders(self.root.appenders.clone())")
+        g = p.fn("config::raw::RawConfig::loggers")
+        clo = p.closures_of(g.path)
+        r.require(len(clo) == 1, "logger-closure", fn=g, detail="one mapping closure")
+        if clo:
+            c = clo[0]
+            e = c.local_expr(0)
+            ok = e[0] == "call" and e[1] == "config::runtime::LoggerBuilder::build"
+            if ok:
+                nm, lv = deep_strip(e[2][1]), deep_strip(e[2][2])
+                r.require(nm == ("field", ("param", 2), "0"), "logger-name-is-map-key", fn=c, detail="name = %s" % show(nm))
+                r.require(lv[0] == "field" and lv[2] == "level" and lv[1] == ("field", ("param", 2), "1"), "logger-level", fn=c, detail="level = %s" % show(lv))
+            else:
+                r.fail("logger-build", fn=c, detail="closure does not return LoggerBuilder::build(..)")
+            for setter, fld in (("config::runtime::LoggerBuilder::appenders", "appenders"), ("config::runtime::LoggerBuilder::additive", "additive")):
+                cs = [x for x in walk(e) if x[0] == "call" and x[1] == setter]
+                okf = bool(cs) and deep_strip(cs[0][2][1]) == ("field", ("field", ("param", 2), "1"), fld)
+                r.require(okf, "logger-%s" % fld, fn=c, detail="%s(logger.%s)" % (setter.rsplit("::", 1)[-1], fld))
+                # ... on every path: the setter is not skipped for some documents (builder defaults would apply)
+                sites = c.calls(setter)
+                builds = c.calls("config::runtime::LoggerBuilder::build")
+                unc = len(sites) == 1 and len(builds) == 1 and c.dominates(sites[0].block, builds[0].block)
+                r.require(unc, "logger-%s-always-passed" % fld, fn=c, detail="%s is applied unconditionally before build" % setter.rsplit("::", 1)[-1],
+                          fail_detail="%s(logger.%s) is skipped on some path to build(): for those documents the builder's default replaces the value written in the file" % (setter.rsplit("::", 1)[-1], fld))
+        it = g.calls("core::iter::traits::iterator::Iterator::collect")
+        r.require(len(it) == 1 and not any(x[0] == "call" and x[1].rsplit("::", 1)[-1] in ("filter", "skip", "take", "filter_map") for x in walk(it[0].arg(0))), "all-loggers-mapped", fn=g, detail="every map entry becomes a logger")
+        h = p.fn("config::raw::RawConfig::refresh_rate")
+        r.require(deep_strip(h.local_expr(0)) == ("field", ("param", 1), "refresh_rate"), "refresh-rate-passed-through", fn=h, detail="refresh_rate() returns the parsed field")
 
 
 def run_cfg(ctx, p, cfg):
@@ -400,6 +440,10 @@ def run_cfg(ctx, p, cfg):
                     rets2 = [e for b, e in q.ret_assignments(h) if b in rr]
                     okg = bool(rets2) and all(q.classify_ret(e) == "err" for e in rets2)
         r.require(okg, "raw-config-fails-on-appender-errors", fn=h, detail="non-empty appender errors => Err")
+        # ... and the list tested is the list appenders_lossy returned: nothing in between may empty it (handle() drains)
+        muts = [c for c in h.calls() if any(str(t).startswith("&mut config::raw::AppenderErrors") for t in (c.t.get("arg_tys") or []))]
+        r.require(not muts, "error-list-tested-as-returned", fn=h, site=(muts[0].at if muts else None), detail="no call in create_raw_config takes the appender error list mutably before it is tested",
+                  fail_detail="create_raw_config hands the appender error list to %s by `&mut` (handle() drains it): the emptiness test that decides between Err and a logger no longer sees the errors" % (muts[0].callee if muts else ""))
 
     rule_filters_per_appender(ctx, p, cfg, "K5b")
 
@@ -421,41 +465,8 @@ def run_cfg(ctx, p, cfg):
         r.require(set(tab) == set(want), "no-other-extensions", fn=f, detail="extensions recognised: %s" % sorted(tab))
         rule_whole_document_parsers(r, p)
 
-    with ctx.rule("K7", "meaning preserved", cfg) as r:
-        f = p.fn("config::raw::RawConfig::root")
-        e = f.local_expr(0)
-        ok = e[0] == "call" and e[1] == "config::runtime::RootBuilder::build"
-        lv = deep_strip(e[2][1]) if ok else None
-        ap = [x for x in walk(e) if x[0] == "call" and x[1] == "config::runtime::RootBuilder::appenders"]
-        r.require(ok and lv[0] == "field" and lv[2] == "level" and any(x[0] == "field" and x[2] == "root" for x in walk(lv)), "root-level", fn=f, detail="build(self.root.level): %s" % (show(lv) if lv else None))
-        r.require(bool(ap) and deep_strip(ap[0][2][1]) == ("field", ("field", ("param", 1), "root"), "appenders"), "root-appenders", fn=f, detail="appenders(self.root.appenders.clone())")
-        g = p.fn("config::raw::RawConfig::loggers")
-        clo = p.closures_of(g.path)
-        r.require(len(clo) == 1, "logger-closure", fn=g, detail="one mapping closure")
-        if clo:
-            c = clo[0]
-            e = c.local_expr(0)
-            ok = e[0] == "call" and e[1] == "config::runtime::LoggerBuilder::build"
-            if ok:
-                nm, lv = deep_strip(e[2][1]), deep_strip(e[2][2])
-                r.require(nm == ("field", ("param", 2), "0"), "logger-name-is-map-key", fn=c, detail="name = %s" % show(nm))
-                r.require(lv[0] == "field" and lv[2] == "level" and lv[1] == ("field", ("param", 2), "1"), "logger-level", fn=c, detail="level = %s" % show(lv))
-            else:
-                r.fail("logger-build", fn=c, detail="closure does not return LoggerBuilder::build(..)")
-            for setter, fld in (("config::runtime::LoggerBuilder::appenders", "appenders"), ("config::runtime::LoggerBuilder::additive", "additive")):
-                cs = [x for x in walk(e) if x[0] == "call" and x[1] == setter]
-                okf = bool(cs) and deep_strip(cs[0][2][1]) == ("field", ("field", ("param", 2), "1"), fld)
-                r.require(okf, "logger-%s" % fld, fn=c, detail="%s(logger.%s)" % (setter.rsplit("::", 1)[-1], fld))
-                # ... on every path: the setter is not skipped for some documents (builder defaults would apply)
-                sites = c.calls(setter)
-                builds = c.calls("config::runtime::LoggerBuilder::build")
-                unc = len(sites) == 1 and len(builds) == 1 and c.dominates(sites[0].block, builds[0].block)
-                r.require(unc, "logger-%s-always-passed" % fld, fn=c, detail="%s is applied unconditionally before build" % setter.rsplit("::", 1)[-1],
-                          fail_detail="%s(logger.%s) is skipped on some path to build(): for those documents the builder's default replaces the value written in the file" % (setter.rsplit("::", 1)[-1], fld))
-        it = g.calls("core::iter::traits::iterator::Iterator::collect")
-        r.require(len(it) == 1 and not any(x[0] == "call" and x[1].rsplit("::", 1)[-1] in ("filter", "skip", "take", "filter_map") for x in walk(it[0].arg(0))), "all-loggers-mapped", fn=g, detail="every map entry becomes a logger")
-        h = p.fn("config::raw::RawConfig::refresh_rate")
-        r.require(deep_strip(h.local_expr(0)) == ("field", ("param", 1), "refresh_rate"), "refresh-rate-passed-through", fn=h, detail="refresh_rate() returns the parsed field")
+    rule_raw_to_runtime(ctx, p, cfg, "K7")
+    common.rule_visitor_entry_points(ctx, p, cfg, "K11", "config::raw::de_duration::", ("visit_str",), "refresh_rate")     # refresh_rate is a humantime string in every format: a bare number has no unit
 
     with ctx.rule("K8", "loading does not panic", cfg) as r:
         ents = ["config::file::load_config_file", "config::file::init_file", "config::create_raw_config", "config::raw::RawConfig::appenders_lossy"]
@@ -501,3 +512,26 @@ def overridden_only_on_some(r, p, deser, setter, field, key):
         r.require(gate == [{"Some"}], "%s-overridden-only-when-given" % key, fn=f, site=c.at, detail="the default is replaced only if the config field is Some")
         a = c.arg(1)
         r.require(any(x[0] == "as" and x[2] == "Some" for x in walk(a)), "%s-uses-the-given-value" % key, fn=f, detail="setter argument %s" % show(a, 4))
+        # the builder the setter returns is the builder that is built (a by-value setter on a Copy builder can be called and its
+        # result dropped without a warning)
+        bname = setter.rsplit("::", 1)[0] + "::build"
+        builds = f.calls(bname)
+        kept = any(x[0] == "call" and x[1] == setter and len(x) > 3 and x[3] == c.block for b_ in builds for x in walk(b_.arg(0)))
+        r.require(bool(builds) and kept, "%s-setter-result-is-built" % key, fn=f, site=c.at, detail="build() is called on what %s returned" % setter.rsplit("::", 1)[-1],
+                  fail_detail="%s(..) is called but build() runs on a builder that never went through it: the configured `%s` is dropped and the default is used" % (setter.rsplit("::", 1)[-1], field))
+
+
+ROLLER_DESER = "<append::rolling_file::policy::compound::roll::fixed_window::FixedWindowRollerDeserializer as config::raw::Deserialize>::deserialize"
+ROLLER_BASE = "append::rolling_file::policy::compound::roll::fixed_window::FixedWindowRollerBuilder::base"
+
+
+def rule_roller_window_from_document(ctx, p, cfg, rid):
+    """A fixed-window roller built from a document has the window the document states: `base` when given reaches the builder that
+    is built, pattern and count are the configured ones."""
+    with ctx.rule(rid, "the configured window reaches the roller", cfg) as r:
+        overridden_only_on_some(r, p, ROLLER_DESER, ROLLER_BASE, "base", "roller-base")
+        f = p.fn(ROLLER_DESER)
+        for b_ in f.calls(ROLLER_BASE.rsplit("::", 1)[0] + "::build"):
+            a1, a2 = deep_strip(b_.arg(1)), deep_strip(b_.arg(2))
+            r.require(a1 == ("field", ("param", 2), "pattern") and a2 == ("field", ("param", 2), "count"), "pattern-and-count-as-configured", fn=f, site=b_.at,
+                      detail="build(config.pattern, config.count): %s, %s" % (show(a1, 3), show(a2, 3)))
